@@ -34,6 +34,7 @@ def run(ctx):
     ctx.not_decided += ["exactness of the cascade for every store shape (only coverage of the dependency indices is decided)", "that every surviving reference resolves (the expect(\"handle must be valid\") sites are sound only under this property)"]
 
     rank_rule(ctx, syn)
+    live_rule(ctx, prog)
 
     # ---------------- CASC
     r_casc = ctx.rule("C02.CASC", "removing an item consults every reverse index that can name an annotation depending on it")
@@ -277,3 +278,116 @@ def first_of_tuple(pat):
     if p.get("p") == "tuple" and p.get("elems"):
         return pat_names(p["elems"][0])
     return []
+
+
+# ---------------------------------------------------------------------- LIVE
+def live_rule(ctx, prog):
+    """a loop that looks an index row up (`self.<index>.get(..)`) on every iteration while its body calls
+    something that may remove from that same index walks a collection that shrinks under it: every second
+    item is skipped.  Sound loops take a snapshot (clone / collect) before they start."""
+    from effects import param_field_effects
+    r = ctx.rule("C02.LIVE", "no loop re-reads a reverse-index row that a call in the same loop may shrink")
+    eff = param_field_effects(prog)
+    # transitive: body -> set of (adt, field) it may write through its &mut parameters
+    edges = prog.edges()
+    trans = dict((b, set(f for f in fl)) for b, fl in eff.items())
+    changed = True
+    rounds = 0
+    while changed and rounds < 30:
+        changed = False
+        rounds += 1
+        for a, bs in edges.items():
+            cur = trans.setdefault(a, set())
+            before = len(cur)
+            for x in bs:
+                cur |= trans.get(x, set())
+            if len(cur) != before:
+                changed = True
+    INDEX_RX = re.compile(r"RelationMap|RelationBTreeMap")
+    n_loops = 0
+    for bid, b in sorted(prog.bodies.items()):
+        if b.d.get("derived") or not (b.file or "").startswith("src/") or (b.file or "").endswith("tests.rs"):
+            continue
+        if "AnnotationStore" not in bid and "annotationstore" not in bid:
+            continue
+        dom = b.dominators()
+        heads = {}
+        for x in b.reachable_blocks():
+            for s_ in b.succs(x):
+                if s_ in dom.get(x, ()):
+                    heads.setdefault(s_, []).append(x)
+        li = 0
+        for h in sorted(heads):
+            loop = {h}
+            st = list(heads[h])
+            while st:
+                y = st.pop()
+                if y in loop:
+                    continue
+                loop.add(y)
+                st.extend(p_ for p_ in b.preds(y))
+            li += 1
+            reads = {}
+            writes = {}
+            for y in loop:
+                t = b.blocks[y]["t"]
+                if t["t"] != "call":
+                    continue
+                decl, res, info = mirq.callee_of(t)
+                nm = res or decl or ""
+                # a row look-up on an index field of self
+                if re.search(r"(RelationMap|RelationBTreeMap)::<.*>::get$|(RelationMap|RelationBTreeMap)<.*>::get$", nm) or re.search(r"store::(Triple)?Relation(BTree)?Map.*::get$", nm):
+                    fld = None
+                    if t.get("args"):
+                        for key in b.provenance(t["args"][0]):
+                            m = re.search(r"\.(\w+)$", key)
+                            if m:
+                                fld = m.group(1)
+                    recv = field_of_receiver(b, t)
+                    if recv:
+                        reads.setdefault(recv, t.get("line"))
+                for tgt in prog.call_targets(b, t):
+                    for (adt, f_) in trans.get(tgt, ()):
+                        if adt == "annotationstore::AnnotationStore":
+                            writes.setdefault(f_, (mirq.short_fn(decl or tgt), t.get("line")))
+            if reads:
+                n_loops += 1
+                key0 = "%s|loop#%d" % (bid, li)
+                r.hit(key0, sample={"loop": key0, "index_rows_read": sorted(reads), "may_write": sorted(set(writes) & set(reads))})
+            for f_ in sorted(set(reads) & set(writes)):
+                ctx.report(r, "%s|%s" % (bid, f_), "%s looks up a row of `%s` inside a loop (line %s) whose body calls %s (line %s), which may remove entries from that same index: the row shrinks while it is being walked by position, so items are skipped and survive with dangling references" % (
+                    bid, f_, reads[f_], writes[f_][0], writes[f_][1]), b.file, reads[f_], {"field": f_})
+    r.notes.append("loops that look up an index row: %d" % n_loops)
+
+
+def field_of_receiver(b, t):
+    """name of the AnnotationStore field whose method is called (receiver = &(*self).field)"""
+    if not t.get("args"):
+        return None
+    p = mirq.op_place(t["args"][0])
+    seen = set()
+    depth = 0
+    while p is not None and depth < 8:
+        for e in p["p"]:
+            if isinstance(e, dict) and "f" in e and e.get("a") == "annotationstore::AnnotationStore":
+                return e.get("n")
+        l = p["l"]
+        if l in seen:
+            break
+        seen.add(l)
+        ds = [d for d in b.defs().get(l, []) if d[2] != "partial"]
+        if not ds:
+            break
+        bi, si, kind, payload = ds[0]
+        if kind != "assign":
+            break
+        rv = payload
+        q = rv.get("p") if rv.get("r") in ("ref", "rawptr") else None
+        if q is None:
+            for o in mirq._operands_of_rvalue(rv):
+                q = mirq.op_place(o)
+                if q:
+                    break
+        p = q
+        depth += 1
+    return None
